@@ -1,5 +1,6 @@
 # C11 - link failures get a device-error reply and are repaired on the next request
 import random
+import zlib
 
 from .. import env
 from ..simdev.transport import Fault
@@ -159,7 +160,11 @@ def run_case(acc, c, roles=None):
         acc.violation(mech, d, c)
 
     dev = fl.make_device(shape, also=[fu])
-    with Stack(dev, version_one=v1) as s:
+    # a third of the cases with the manager's low-level I/O debugging option on
+    iodebug = (zlib.crc32(repr(sorted(c.items())).encode()) % 3 == 0)
+    if iodebug:
+        acc.count("cases_with_iodebug_on")
+    with Stack(dev, version_one=v1, iodebug=iodebug) as s:
         s.initialize()
         if shape.post:
             shape.post(dev)
